@@ -1978,13 +1978,24 @@ class Filter(Blockwise):
                     # only relevant in broadcasting cases
                     predicate = parent.predicate.substitute(self, self.frame)
                     # Other expressions filtered by the same predicate (e.g. the
-                    # frame behind ``x[mask].index``) have the rows of self, too
-                    for e in list(predicate.walk()):
+                    # frame behind ``x[mask].index``) have the rows of self, too.
+                    # Below a reduction they must stay filtered, then the two
+                    # filters can't be merged.
+                    stack = [(predicate, False)]
+                    while stack:
+                        e, reduced = stack.pop()
                         if (
                             isinstance(e, Filter)
                             and e.predicate._name == self.predicate._name
                         ):
+                            if reduced:
+                                return
                             predicate = predicate.substitute(e, e.frame)
+                            continue
+                        reduced = reduced or isinstance(
+                            e, (ApplyConcatApply, TreeReduce, ShuffleReduce)
+                        )
+                        stack.extend((d, reduced) for d in e.dependencies())
                     return self.frame[self.predicate & predicate]
         if isinstance(parent, Projection):
             if self.frame._filter_passthrough_available(self, dependents):
